@@ -352,6 +352,27 @@ class C10(Prop):
         else:
             tp = ThermalProp(mpdm, evolve_config=cfg)
         tp.evolve(evolve_dt=-1j * tau, nsteps=nstep)
+        if case["space"] == "EX":
+            # with a projector scheme the job first enlarges the bonds of the initial state (auto_expand): that must leave the
+            # represented density operator alone (the admixture is documented as 1e-10)
+            from renormalizer.utils import CompressConfig, CompressCriteria
+            try:
+                m3 = mpdm.copy()
+                m3.compress_config = CompressConfig(CompressCriteria.fixed, max_bonddim=24)
+                tp3 = ThermalProp(m3, h_mpo_model=model, evolve_config=EvolveConfig(EvolveMethod.tdvp_ps))
+                d3 = np.asarray(tp3.latest_mps.todense()) * tp3.latest_mps.coeff
+                sc3 = max(np.linalg.norm(rho0), 1e-300)
+                dev = np.linalg.norm(d3 / np.linalg.norm(d3) - rho0 / sc3)
+                r.resid("thermal.auto_expand_deviation", dev, 1e-7)
+                r.check("thermal.auto_expand_keeps_state", dev <= 1e-7,
+                        f"initial density operator changed by {dev:.2e} (relative) by the automatic bond expansion of ThermalProp "
+                        f"(bond dims {list(mpdm.bond_dims)} -> {list(tp3.latest_mps.bond_dims)})")
+                r.classes.append("thermal.auto_expand")
+            except Exception as e:  # noqa
+                sg, in_lib = lib_exception_sig(e)
+                if not in_lib:
+                    raise
+                r.classes.append("thermal.auto_expand.raised")
         e_ops, ph_ops = self._observables(model)
         # dense replica of the job: Taylor step with the energy re-centred at the last energy, then normalisation
         E = [self._avg(rho, H)]
